@@ -224,6 +224,24 @@ func notations(ts []TraceItem) []string {
 }
 
 // flagsItem finds the flags primitive: the first [byte]/[int] whose argument text mentions "flags".
+// flagsAfter finds the flags primitive by its place in the specification: the first [byte]/[int] that follows the
+// first top-level primitive `pred` (falls back to the name-based search).
+func flagsAfter(ts []TraceItem, pred string) (TraceItem, bool) {
+	seen := false
+	for _, t := range ts {
+		if seen && (t.Prim == "[byte]" || t.Prim == "[int]") {
+			return t, true
+		}
+		if seen && t.Prim != "case" && t.Prim != "typecase" && t.Prim != "enter" && t.Prim != "leave" && t.Prim != "field" {
+			break
+		}
+		if t.Prim == pred {
+			seen = true
+		}
+	}
+	return flagsItem(ts)
+}
+
 func flagsItem(ts []TraceItem) (TraceItem, bool) {
 	for _, t := range ts {
 		if (t.Prim == "[byte]" || t.Prim == "[int]") && strings.Contains(t.Arg, "flags") {
@@ -253,7 +271,7 @@ func c03r3(p *Program, r *Report) {
 		{"opAuthResponse", func(v int, st *pathState, body []TraceItem) ([]string, string) { return []string{"[bytes]"}, "" }},
 		{"opRegister", func(v int, st *pathState, body []TraceItem) ([]string, string) { return []string{"[string list]"}, "" }},
 		{"opQuery", func(v int, st *pathState, body []TraceItem) ([]string, string) {
-			fl, ok := flagsItem(body)
+			fl, ok := flagsAfter(body, "[consistency]")
 			if v >= 2 && (!ok || !fl.HasVal) {
 				return nil, "flags value of the QUERY parameters is not a constant-propagated value on this path"
 			}
@@ -267,7 +285,7 @@ func c03r3(p *Program, r *Report) {
 				}
 				return []string{"[short bytes]", "[short]", "loop{" + val + "}", "[consistency]"}, ""
 			}
-			fl, ok := flagsItem(body)
+			fl, ok := flagsAfter(body, "[consistency]")
 			if !ok || !fl.HasVal {
 				return nil, "flags value of the EXECUTE parameters is not a constant-propagated value on this path"
 			}
@@ -276,7 +294,7 @@ func c03r3(p *Program, r *Report) {
 		{"opPrepare", func(v int, st *pathState, body []TraceItem) ([]string, string) {
 			out := []string{"[long string]"}
 			if v >= 5 {
-				fl, ok := flagsItem(body)
+				fl, ok := flagsAfter(body, "[long string]")
 				if !ok || !fl.HasVal {
 					return nil, "flags value of PREPARE is not known on this path"
 				}
@@ -313,7 +331,7 @@ func c03r3(p *Program, r *Report) {
 			}
 			out := []string{"[byte]", "[short]", "loop{" + kind + " [short] loop{" + val + "}}", "[consistency]"}
 			if v >= 3 {
-				fl, ok := flagsItem(body)
+				fl, ok := flagsAfter(body, "[consistency]")
 				if !ok || !fl.HasVal {
 					return nil, "flags value of BATCH is not known on this path"
 				}
@@ -499,26 +517,52 @@ func c03r5(p *Program, r *Report) {
 			continue
 		}
 		info := fi.Pkg.TypesInfo
-		var items []ByteItem
-		ast.Inspect(fi.Decl.Body, func(x ast.Node) bool {
-			if c, ok := x.(*ast.CallExpr); ok && calleeName(info, c) == "builtin.append" && len(c.Args) > 1 {
-				for _, a := range c.Args[1:] {
-					items = append(items, parseByteItem(info, a))
+		// interpret the helper on a symbolic value: the bytes it appends must be the value's bytes, most
+		// significant first (bit provenance of every appended byte)
+		se := newSymEval(p)
+		var args []sval
+		valName := ""
+		for _, pf := range fi.Decl.Type.Params.List {
+			for _, pn := range pf.Names {
+				t := info.TypeOf(pf.Type)
+				if _, _, isInt := se.width(t); isInt {
+					valName = pn.Name
+					args = append(args, sval{kind: 'i', t: tSym(pn.Name), typ: t})
+				} else {
+					args = append(args, sval{kind: 's', base: pn.Name, off: tConst(0), typ: t})
 				}
 			}
-			return true
-		})
-		ok := len(items) == w.width
-		for i, it := range items {
-			if it.IsConst || it.Shift != 8*(w.width-1-i) {
-				ok = false
-			}
 		}
+		vals, okE := se.evalFunc(fi, args)
+		if !okE || len(se.unsup) > 0 || len(vals) != 1 || vals[0].kind != 's' {
+			r.Unresolved("%s: %s", w.name, strings.Join(se.unsup, "; "))
+			continue
+		}
+		tail := vals[0].tail
+		ok := len(tail) == w.width
 		var s []string
-		for _, it := range items {
-			s = append(s, it.String())
+		for i, b := range tail {
+			if b.kind != 'i' {
+				ok = false
+				continue
+			}
+			pv := provenance(b.t)
+			lo := -1
+			for j := 0; j < 8; j++ {
+				if pv[j].kind != 's' || pv[j].sym != valName {
+					ok = false
+					continue
+				}
+				if j == 0 {
+					lo = pv[j].bit
+				}
+				if i < w.width && pv[j].bit != 8*(w.width-1-i)+j {
+					ok = false
+				}
+			}
+			s = append(s, fmt.Sprintf("byte %d = bits %d.. of %s", i, lo, valName))
 		}
-		r.Check(ok, fi.Decl, w.name+" is big-endian, "+itoa(w.width)+" bytes", strings.Join(s, " "), w.name+" does not append the value as "+itoa(w.width)+" big-endian bytes: "+strings.Join(s, " "))
+		r.Check(ok, fi.Decl, w.name+" is big-endian, "+itoa(w.width)+" bytes", strings.Join(s, "; "), w.name+" does not append the value as "+itoa(w.width)+" big-endian bytes: "+strings.Join(s, "; "))
 	}
 	// composite writers: which length prefix
 	for _, w := range []struct{ name, prefix, what string }{
